@@ -2,6 +2,8 @@
      jsonout-run <pretty 0/1> <hex path> <hex contents>                 stdout of `klog json [--pretty] path`
      jsonout-multi <pretty 0/1> <hex path1> <hex contents1> <hex path2> ...   the same with several files
        -> ok <exit code> <hex stdout> <the parser's own error list: per file `_` or line:pos:len:code:hextext,... ; files joined by />
+     jsonout-api <pretty 0/1> <hex origin> <hex contents>               json.ToJson called directly on the parser's result, the errors' origin
+                                                                        set to an arbitrary byte string (the only way invalid UTF-8 reaches the encoder)
      jsonout-terminal <hex path> <hex contents>                         error text of `klog print path`, colours off
        -> valid | ok <exit code> <hex error text> <hex stdout of `klog json path`> *)
 From Klog Require Import Base.Prelude Base.Utf8 Model.Calendar Model.Values Model.Record Model.Lines Model.Parser
@@ -35,6 +37,11 @@ Definition show_json_run (pretty : bytes) (args : list bytes) : bytes :=
 
 Definition suite_json (cmd : bytes) (args : list bytes) : option bytes :=
   if bytes_eqb cmd b!"jsonout-run" then
+    match args with
+    | [pretty; p; c] => Some (show_json_run pretty [p; c])
+    | _ => None
+    end
+  else if bytes_eqb cmd b!"jsonout-api" then
     match args with
     | [pretty; p; c] => Some (show_json_run pretty [p; c])
     | _ => None
